@@ -32,6 +32,9 @@ def build_doc():
     b = odml.Section(name="B", type="t", parent=doc, prop_cardinality=(0, 5))
     odml.Property(name="q", values=[0.5], parent=b)
     odml.Section(name="BB", type="t", parent=b)
+    # objects created without a name (the id serves as name)
+    odml.Section(type="t", parent=b)
+    odml.Property(values=[3], parent=aa)
     lnk = odml.Section(name="L", type="t", parent=a)
     lnk.link = "/B"
     return doc
